@@ -84,7 +84,7 @@ var c17Sizes = []int{0, 1, 30, 60, 63, 64, 65, 120, 127, 128, 129, 250, 256, 500
 
 func c17Run(w *W) {
 	topo := []string{"pubsub", "bus", "star", "survey", "reqrep", "pipeline", "pair"}[w.Choose(simrt.SShape, 7)]
-	tran := w.simFallback([]string{"inproc", "sim", "simipc", "tcp", "ipc", "tls+tcp"}[w.Choose(simrt.SShape, 6)])
+	tran := w.simFallback([]string{"inproc", "sim", "simipc", "tcp", "ipc", "tls+tcp", "ws", "wss"}[w.Choose(simrt.SShape, 8)])
 	nrecv := 1 + w.Choose(simrt.SShape, 3)
 	nmsg := 2 + w.Choose(simrt.SShape, 8)
 	w.SetShape("topo", topo)
